@@ -5,7 +5,7 @@ import ast
 from ..model import norm, head, walk_no_nested, AnalysisError, FuncInfo, ClassInfo, enclosing_stmt, ancestors, live
 from ..cfg import cfg_of
 from ..resolve import Resolver, Ctx
-from ..q import (find, match, const, try_const, only_via, tests, stmt_nodes, one, fmt, cfg_node_for, linear, calls,
+from ..q import (names_in, find, match, const, try_const, only_via, tests, stmt_nodes, one, fmt, cfg_node_for, linear, calls,
                  le_edge, edges_where)
 from ..core import key
 
@@ -345,8 +345,148 @@ def rule_emulation_limits(report, prog):
     report.check(okk, 'C01-R5', key(f.qname, 'block count limit: 1..15 served, 16+ refused'), f.loc(tests_[0]) if tests_ else f.loc(),
                  'the emulated tag refuses read commands with %s blocks (expected: 16 and more)' % (refused or 'an unrecognised set of'))
 
+def rule_tt4_layout(report, prog, rule='C01-R6'):
+    """Type 4 Tag: for every control TLV tag the discovery accepts, the NLEN width it records is the width of the length
+    field of that mapping (T=04h: 2 octets, T=06h: 4 octets, the struct format the reader/writer derive from it has that
+    size) and the capacity it reports is the file size minus that width -- decided by folding the assigned expressions for
+    each accepted tag over a set of file sizes (locals assigned from foldable expressions are followed)."""
+    import struct
+    d = prog.func('nfc.tag.tt4.Type4Tag.NDEF._discover_ndef')
+    tags = None
+    for i_ in walk_no_nested(d.node):
+        if isinstance(i_, ast.If) and 'tag' in names_in(i_.test) and any(isinstance(x, ast.Return) for x in i_.body):
+            acc = []
+            for t in range(0, 256):
+                for l in range(0, 10):
+                    v = try_const(i_.test, {'tag': t, 'len(val)': l})
+                    if v is None:
+                        acc = None
+                        break
+                    if not v:
+                        acc.append((t, l))
+                if acc is None:
+                    break
+            if acc is not None and len(acc) < 20:
+                tags = acc
+    report.check(tags == [(4, 6), (6, 8)], rule, key(d.qname, 'accepted control TLV tags / value lengths are (4, 6) and (6, 8)'), d.loc(),
+                 'accepted NDEF file control TLV set is %s' % (tags,))
+    if not tags:
+        return
+    problems = []
+    for tag, _ in tags:
+        for mfs in (5, 64, 255, 256, 2048, 32767, 65535, 65536, 2 ** 32 - 1):
+            env = {'tag': tag, 'mfs': mfs, 'mle': 255, 'mlc': 255, 'rf': 0, 'wf': 0}
+            attrs = {}
+            seen_unpack = False
+            for s in walk_no_nested(d.node):
+                if not isinstance(s, ast.Assign) or len(s.targets) != 1:
+                    continue
+                t = s.targets[0]
+                if isinstance(t, ast.Tuple) and 'mfs' in [norm(e) for e in t.elts]:
+                    seen_unpack = True
+                    continue
+                if not seen_unpack:
+                    continue
+                v = try_const(s.value, env)
+                if isinstance(t, ast.Name) and v is not None and t.id not in ('tag', 'mfs'):
+                    env[t.id] = v
+                elif isinstance(t, ast.Attribute) and norm(t) in ('self._capacity', 'self._nlen_size'):
+                    if norm(t) in attrs or v is None:
+                        problems.append('%s assigned more than once or not foldable' % norm(t))
+                    attrs[norm(t)] = v
+                    env[norm(t)] = v
+            want = {4: 2, 6: 4}[tag]
+            if attrs.get('self._nlen_size') != want:
+                problems.append('tag %d: NLEN width %r, expected %d' % (tag, attrs.get('self._nlen_size'), want))
+            elif attrs.get('self._capacity') != mfs - want:
+                problems.append('tag %d, file size %d: capacity %r, the file holds %d message octets behind the %d octet length field'
+                                % (tag, mfs, attrs.get('self._capacity'), mfs - want, want))
+    report.check(not problems, rule, key(d.qname, 'capacity = file size - NLEN width, NLEN width 2 (T=04h) / 4 (T=06h)'), d.loc(),
+                 '; '.join(sorted(set(problems))[:3]))
+    n = 0
+    for fn in ('_read_ndef_data', '_write_ndef_data', '_wipe_ndef_data'):
+        f = prog.func('nfc.tag.tt4.Type4Tag.NDEF.' + fn)
+        for s in walk_no_nested(f.node):
+            if isinstance(s, ast.Assign) and norm(s.targets[0]) == 'lfmt':
+                n += 1
+                bad = [w for w in (2, 4) if not isinstance(try_const(s.value, {'self._nlen_size': w}), str)
+                       or struct.calcsize(try_const(s.value, {'self._nlen_size': w})) != w
+                       or not try_const(s.value, {'self._nlen_size': w}).startswith('>')]
+                report.check(not bad, rule, key(f.qname, 'length field format is big-endian and as wide as the NLEN width'), f.loc(s),
+                             'length field format for NLEN width %s is not a big-endian field of that width' % bad)
+    report.floor(rule, n, 3)
+
+
+def _shift_of(expr, defs, var):
+    """expr as `var >> k` (after following single-assignment locals): returns k or None."""
+    k = 0
+    while True:
+        if isinstance(expr, ast.Name) and expr.id == var:
+            return k
+        if isinstance(expr, ast.Name) and expr.id in defs:
+            expr = defs[expr.id]
+            continue
+        if isinstance(expr, ast.BinOp) and isinstance(expr.op, ast.RShift) and isinstance(try_const(expr.right), int):
+            k += try_const(expr.right)
+            expr = expr.left
+            continue
+        if isinstance(expr, ast.BinOp) and isinstance(expr.op, ast.FloorDiv) and isinstance(try_const(expr.right), int) \
+                and try_const(expr.right) > 0 and try_const(expr.right) & (try_const(expr.right) - 1) == 0:
+            k += try_const(expr.right).bit_length() - 1
+            expr = expr.left
+            continue
+        return None
+
+
+def rule_tt2_memory_units(report, prog, rule='C01-R6'):
+    """Type 2 Tag memory image: both the loader and the flush address the tag from the byte index of the image: sector =
+    index >> 10 (1 KiB sectors), page = index >> 2 (4 octet pages), index advances by exactly what one command moves (16
+    read, 4 written) and the slices moved have that width."""
+    n = 0
+    for fn, cmd, stride in (('_read_from_tag', 'read', 16), ('_write_to_tag', 'write', 4)):
+        f = prog.func('nfc.tag.tt2.Type2TagMemoryReader.' + fn)
+        loops = [l for l in walk_no_nested(f.node) if isinstance(l, ast.While)]
+        if len(loops) != 1 or not isinstance(loops[0].test, ast.Compare) or not isinstance(loops[0].test.left, ast.Name):
+            raise AnalysisError('%s: %s: single while loop over the byte index not found' % (rule, f.qname))
+        var = loops[0].test.left.id
+        defs = {}
+        for s in ast.walk(loops[0]):
+            if isinstance(s, ast.Assign) and len(s.targets) == 1 and isinstance(s.targets[0], ast.Name) and s.targets[0].id != var:
+                if s.targets[0].id in defs:
+                    defs[s.targets[0].id] = None
+                else:
+                    defs[s.targets[0].id] = s.value
+        defs = {k: v for k, v in defs.items() if v is not None}
+        sel = [c for c in calls(loops[0]) if norm(c.func) == 'self._tag.sector_select']
+        xfer = [c for c in calls(loops[0]) if norm(c.func) == 'self._tag.' + cmd]
+        if len(sel) != 1 or len(xfer) != 1:
+            raise AnalysisError('%s: %s: sector_select / %s call not found' % (rule, f.qname, cmd))
+        n += 1
+        report.check(len(sel[0].args) == 1 and _shift_of(sel[0].args[0], defs, var) == 10, rule,
+                     key(f.qname, 'sector = byte index >> 10'), f.loc(sel[0]),
+                     'the sector selected before the %s is not the 1 KiB sector of the byte index (%s)' % (cmd, norm(sel[0])))
+        n += 1
+        report.check(len(xfer[0].args) >= 1 and _shift_of(xfer[0].args[0], defs, var) == 2, rule,
+                     key(f.qname, 'page = byte index >> 2'), f.loc(xfer[0]),
+                     'the page of the %s command is not the 4 octet page of the byte index (%s)' % (cmd, norm(xfer[0])))
+        cfg = cfg_of(f)
+        selnode, xnode = cfg_node_for(cfg, sel[0]), cfg_node_for(cfg, xfer[0])
+        n += 1
+        report.check(xnode not in cfg.reachable(cfg.entry, avoid_nodes=[selnode]), rule, key(f.qname, 'sector selected before every %s' % cmd), f.loc(xfer[0]),
+                     'a %s command can be sent without selecting the sector of its page first' % cmd)
+        steps = [s for s in live(loops[0].body) if isinstance(s, ast.AugAssign) and norm(s.target) == var]
+        n += 1
+        report.check(len(steps) == 1 and isinstance(steps[0].op, ast.Add) and try_const(steps[0].value) == stride and
+                     not any(isinstance(s, (ast.Continue,)) for s in ast.walk(loops[0])), rule,
+                     key(f.qname, 'index advances by %d per iteration' % stride), f.loc(loops[0]),
+                     'loop stride is not the %d octets one %s command moves' % (stride, cmd))
+    report.floor(rule, n, 8)
+
+
 def run(report, prog, tier):
     rule_emulation_limits(report, prog)
+    rule_tt4_layout(report, prog)
+    rule_tt2_memory_units(report, prog)
     from .c03 import rule_control_tlv_dispatch
     rule_control_tlv_dispatch(report, prog, rule='C01-R3')
     rule_gate(report, prog)
@@ -391,6 +531,11 @@ MUTANTS = [
     ('tt4-update-returns-len', 'nfc.tag.tt4', """            self.tag.send_apdu(0, 0xD6, p1, p2, data[:max_data])
             return max_data""", """            self.tag.send_apdu(0, 0xD6, p1, p2, data[:max_data])
             return len(data)""", 'C01-R4'),
+    ('tt4-capacity-ignores-enlen', 'nfc.tag.tt4', "self._capacity = mfs - tag + 2", "self._capacity = mfs - 2", 'C01-R6'),
+    ('tt4-nlen-width', 'nfc.tag.tt4', "self._nlen_size = tag - 2", "self._nlen_size = 2", 'C01-R6'),
+    ('tt2-flush-sector-unit', 'nfc.tag.tt2', "                self._tag.sector_select(index >> 10)\n                self._tag.write(index >> 2, data)",
+     "                self._tag.sector_select(index >> 12)\n                self._tag.write(index >> 2, data)", 'C01-R6'),
+    ('tt2-load-page-unit', 'nfc.tag.tt2', "data = self._tag.read(index >> 2)", "data = self._tag.read(index >> 4)", 'C01-R6'),
     ('tt4-read-offset', 'nfc.tag.tt4', "offset = self._nlen_size + len(data)", "offset = len(data)", 'C01-R4'),
     ('tt3-checksum-range', 'nfc.tag.tt3', "attribute_data[14:16] = pack('>H', sum(attribute_data[0:14]))\n            self._tag.write_to_ndef_service", "attribute_data[14:16] = pack('>H', sum(attribute_data[0:13]))\n            self._tag.write_to_ndef_service", 'C01-R5'),
     ('tt3-nbw-offset', 'nfc.tag.tt3', "attribute_data[2] = attributes['nbw']", "attribute_data[2] = attributes['nbr']", 'C01-R5'),
